@@ -17,6 +17,23 @@ TRUSTED = (
 )
 
 CHECKS = {
+    "C01": dict(
+        level="exploration",
+        technique="TLA+ spec MiniPy.tla: TLC generates annotated functions (statements over catalogues of expressions, tests and "
+        "match patterns; parameter types from the shared term universe) together with the argument tuples, which TLC draws "
+        "from the declared types with the Member relation; each function is checked by the real visitor (annotated tree) and "
+        "executed under CPython with an AST-rewriting recorder; the recorded (node, runtime value, inferred type) events are "
+        "validated by TLC (MiniPyTrace.tla): Member(value, inferred) at every evaluated node, Never never reached",
+        text="Exploration with a TLA+ generator and TLC as the judge: every single-statement body x every pair of 19 parameter "
+        "types (sampled in quick) and simulated bodies of up to 5 statements / depth 3 (if/while/for/try/finally/match, 34 "
+        "expressions, 22 tests, 13 patterns) x up to 6 argument tuples each; ~17k executions and ~40k judged node evaluations "
+        "in quick. The visitor's abstract machine is not one specification: its components are modelled and bound in C02, C09, "
+        "C14, C03/C04 and the call specs. Three named deviation classes are known findings.",
+        design="2/C01",
+        note=TRUSTED + " Runtime values come from instrumented execution under CPython 3.12; values / inferred types outside the "
+        "term universe (other classes, callables, TypedDict, unsolved type variables) are not judged; bool arguments are only "
+        "passed where bool is declared (cross-type equality, as in C02); programs do not mutate containers.",
+    ),
     "C02": dict(
         technique="TLA+ specs Narrowing.tla + Boolability.tla (over Assign/ValueAlgebra/Values): transcription of the "
         "condition->constraint mapping, AbstractConstraint invert/apply, Constraint.apply_to_value, the IsAssignable / Equals / "
@@ -120,6 +137,20 @@ CHECKS = {
         "declarative reference inside TLC. Longer files by TLC simulation.",
         design="2/C11",
         note=TRUSTED + " Diagnostics are realised with module-level lambdas (undefined_name, unsupported_operation).",
+    ),
+    "C12": dict(
+        level="exploration",
+        technique="TLA+ spec Totality.tla: (i) a TLC generator of deliberately odd / ill-typed modules (sequences of 42 fragment "
+        "kinds x 13 operand kinds), (ii) the life-cycle automaton of one check (Start -> Diag* -> End, every Diag WellFormed, "
+        "no Raise action); every generated module is checked by the real visitor under two enabled-code configurations and the "
+        "Begin/Diag/End/Raised event stream validated by TLC (TotalityTrace.tla); the public value API is exercised on "
+        "TLC-generated pairs of Values (Assign.tla's generator)",
+        text="Exploration with a TLA+ generator and acceptance automaton: every single fragment exhaustively (546 modules x 2 "
+        "configurations), sequences of up to 4 fragments by TLC simulation, 8k (quick) / 108k (thorough) value pairs through "
+        "can_assign / unite_values / substitute_typevars / str / hash / simplify. Totality is observed, not derived. Three "
+        "crashes found this way were repaired (implicit_any on metaclass keyword, literal slice, starred string annotation).",
+        design="2/C12",
+        note=TRUSTED + " The grammar is the modelled one, not all of Python; modules that fail to import are outside the domain.",
     ),
     "C13": dict(
         technique="TLA+ specs Annotations.tla (transcriptions of pyanalyze's three annotation evaluators -- runtime object, "
